@@ -453,6 +453,8 @@ SPICE = {
     'word-python-literal': ('word', ['None', 'True', 'nan', 'null', '0.0',
                                      '1e3', "''"]),
     'morph-python-literal': ('morph', ['None', 'True', 'nan', '0']),
+    # the empty word (trees.DEFAULT_WORD; API-built trees, TIGER-XML word="")
+    'word-empty': ('word', ['']),
     # a backslash before a bracket or at the end of a word escapes nothing
     'word-backslash': ('word', ['C:\\', '\\', 'a\\', '1\\/2', '\\n']),
 }
